@@ -23,7 +23,7 @@ def shards(tier, seed):
     out = []
     for L in T.LETTERS:
         out.append({"name": "note-" + L, "kind": "note", "letter": L,
-                    "acc": 3, "octaves": [0, 1, 4, 8] if tier == "quick" else list(range(10)),
+                    "acc": 6 if tier == "quick" else 9, "octaves": [0, 1, 4, 8] if tier == "quick" else list(range(10)),
                     "weight": 4})
     n = 1600 if tier == "quick" else 8000
     parts = 8 if tier == "quick" else 16
@@ -91,8 +91,9 @@ def run(shard, ctx):
         for n in names:
             for o in shard["octaves"]:
                 for sh in shs:
-                    if len(n) - 1 + len(sh) - 1 > 5:
-                        continue
+                    # the pitch and letter clauses hold for every spelling; the returned *name* is only pinned down while
+                    # the documented re-spelling beyond six accidentals cannot come into play (interpretation 17)
+                    exact_names = len(n) - 1 <= 3 and len(n) - 1 + len(sh) - 1 <= 5
                     size, num = T.shorthand_size(sh), int(sh[-1])
                     for up in (True, False):
                         x = Note(n, o)
@@ -111,9 +112,14 @@ def run(shard, ctx):
                                   mechanism="letter:" + ("up" if up else "down"))
                         ctx.check("note: channel and velocity untouched", (x.velocity, x.channel) == (99, 7), w)
                         st, r = ctx.call(x.transpose, sh, not up)
-                        ctx.check("note: transposing back restores the original name and octave",
-                                  st == "ok" and (x.name, x.octave) == (n, o), w, [n, o], [x.name, x.octave],
-                                  mechanism="restore:" + ("up-down" if up else "down-up"))
+                        if exact_names:
+                            ctx.check("note: transposing back restores the original name and octave",
+                                      st == "ok" and (x.name, x.octave) == (n, o), w, [n, o], [x.name, x.octave],
+                                      mechanism="restore:" + ("up-down" if up else "down-up"))
+                        else:
+                            ctx.check("note: transposing back restores the original pitch on the original letter",
+                                      st == "ok" and x.name[:1] == n[0] and int(x) == base, w, [n[0], base],
+                                      [x.name, x.octave], mechanism="restore-pitch:" + ("up-down" if up else "down-up"))
                         ctx.case(("note", n, o, sh, up), nontrivial=sh != "1")
                         cnt += 1
                 y = Note(n, o)
